@@ -335,6 +335,30 @@ pub fn gen_doc(rng: &mut Rng, o: &GenOpts, cl: &mut Classes) -> Val {
     }
 }
 
+/// Rare, expensive shapes that only some checks opt into: very wide collections
+/// (around serializer size-hint caps and the 16-bit MessagePack header limit)
+/// and documents of tens of KiB full of multi-byte characters (so that reads of
+/// 8 KiB / 16 KiB end inside characters).
+pub fn gen_heavy_doc(rng: &mut Rng) -> Val {
+    if rng.chance(1, 2) {
+        let n = *rng.pick(&[4095usize, 4096, 4097, 5000, 65535, 65536, 70000]);
+        if rng_bool(rng) {
+            Val::Seq((0..n).map(|i| Val::Int((i % 251) as i128)).collect())
+        } else {
+            Val::Map((0..n).map(|i| (Val::Str(format!("k{i}")), Val::Int((i % 7) as i128))).collect())
+        }
+    } else {
+        let n = rng.range(300, 700);
+        let pad = rng.below(4);
+        let mut m = vec![(Val::Str("pad".into()), Val::Str("x".repeat(pad)))];
+        for i in 0..n {
+            let unit = *rng.pick(&["é", "中文", "😀", "aé", "ß-"]);
+            m.push((Val::Str(format!("key{i}")), Val::Str(unit.repeat(rng.range(5, 30)))));
+        }
+        Val::Map(m)
+    }
+}
+
 /// Restricts a document to what TOML can hold: root table, no nulls, ints
 /// within i64. Returns None if the root is not a map.
 pub fn tomlify(v: &Val) -> Option<Val> {
